@@ -162,21 +162,33 @@ def implicit_submodule_names(files: dict, ref: dict) -> dict[str, set[str]]:
         mod = rel[:-3].replace("/", ".").removesuffix(".__init__")
         is_pkg = rel.endswith("__init__.py")
         wild = []
+        explicit = []
         for node in ast.parse(src).body:
-            if isinstance(node, ast.ImportFrom) and any(a.name == "*" for a in node.names):
+            if isinstance(node, ast.ImportFrom):
                 if node.level:
                     base = mod.split(".") if is_pkg else mod.split(".")[:-1]
                     base = base[: len(base) - (node.level - 1)]
-                    wild.append(".".join(base + ([node.module] if node.module else [])))
+                    srcmod = ".".join(base + ([node.module] if node.module else []))
                 else:
-                    wild.append(node.module)
-        info[mod] = (packages.statement_bound_names(src), wild)
+                    srcmod = node.module
+                for a in node.names:
+                    if a.name == "*":
+                        wild.append(srcmod)
+                    else:
+                        explicit.append((srcmod, a.name, a.asname or a.name))
+        info[mod] = (packages.statement_bound_names(src), wild, explicit)
     implicit: dict[str, set[str]] = {m: set() for m in info}
     changed = True
     while changed:
         changed = False
-        for mod, (bound, wild) in info.items():
+        for mod, (bound, wild, explicit) in info.items():
             names = ref["modules"].get(mod, {}).get("names", {})
+            # (c) an explicit import of a name that is only implicitly bound in its source module: what it captures
+            # depends on the order of import side effects
+            for srcmod, name, asname in explicit:
+                if name in implicit.get(srcmod, ()) and asname not in implicit[mod] and names.get(asname, {}).get("k") == "module":
+                    implicit[mod].add(asname)
+                    changed = True
             for n, v in names.items():
                 if v["k"] != "module" or n in implicit[mod]:
                     continue
